@@ -14,6 +14,7 @@ import (
 	"time"
 
 	beacon "github.com/oasisprotocol/oasis-core/go/beacon/api"
+	"github.com/oasisprotocol/oasis-core/go/common"
 	"github.com/oasisprotocol/oasis-core/go/common/cbor"
 	"github.com/oasisprotocol/oasis-core/go/common/crypto/signature"
 	"github.com/oasisprotocol/oasis-core/go/common/entity"
@@ -105,6 +106,10 @@ type txFuzzer struct {
 	nextIdx int
 	// fuzzBlocks counts the fuzzed blocks so far (the fee grid runs in every fourth).
 	fuzzBlocks int
+	// optGrid are the optional-field variants this case delivers; optNext is the next one.
+	optGrid []optTx
+	optNext int
+	optUsed int
 
 	cur     []*fuzzIn
 	curMap  map[string]*fuzzIn
@@ -416,6 +421,75 @@ func (f *txFuzzer) gen(rng *rand.Rand, base []*chainsim.GenTx, nn *nonces) *Inpu
 	return &Input{Data: f.envelope(signer, encodeTx(nonce, fee, method, body)), Aux: aux("body"), Op: op}
 }
 
+// optTx is one optional-field variant of a transaction body.
+type optTx struct {
+	method string
+	label  string
+	body   []byte
+}
+
+// buildOptGrid derives the variants from valid evidence / executor-commit bodies signed by a node
+// key of the scenario. Every case delivers a third of them (all of them are covered by every
+// three consecutive cases).
+func (f *txFuzzer) buildOptGrid() {
+	nodes := f.h.Sc.AllNodes()
+	signer := nodes[int(f.c.Seed%uint64(len(nodes)))].Keys.ID.Signer
+	rtID := common.NewTestNamespaceFromSeed([]byte("c16 tx runtime"), common.NamespaceTest)
+	k := 0
+	for _, s := range evidenceSeeds(signer, rtID) {
+		method := string(roothash.MethodEvidence)
+		if s.Aux == "execcommit" {
+			method = string(roothash.MethodExecutorCommit)
+		}
+		all := append([]optVariant{{Label: "unchanged", Data: s.Data}}, optionalFieldVariants(s.Data, 2000)...)
+		for _, v := range all {
+			if k%3 == f.c.Index%3 {
+				f.optGrid = append(f.optGrid, optTx{method: method, label: s.Name + ": " + v.Label, body: v.Data})
+			}
+			k++
+		}
+	}
+}
+
+// optSlice returns the variants of the current block.
+func (f *txFuzzer) optSlice() []optTx {
+	fuzzable := f.c.Blocks - 5
+	if fuzzable < 1 {
+		fuzzable = 1
+	}
+	per := (len(f.optGrid) + fuzzable - 1) / fuzzable
+	end := min(f.optNext+per, len(f.optGrid))
+	out := f.optGrid[f.optNext:end]
+	f.optNext = end
+	return out
+}
+
+func (f *txFuzzer) optInput(o optTx, base []*chainsim.GenTx, nn *nonces) *Input {
+	sc := f.h.Sc
+	busy := map[*chainsim.Account]bool{}
+	for _, b := range base {
+		busy[b.Signer] = true
+	}
+	var signer *chainsim.Account
+	for i := 0; i < len(sc.Signers); i++ {
+		c := sc.Signers[(f.optUsed+i)%len(sc.Signers)]
+		if _, used := nn.m[c.Addr]; !busy[c] && !used {
+			signer = c
+			f.optUsed += i + 1
+			break
+		}
+	}
+	if signer == nil {
+		signer = sc.Signers[f.optUsed%len(sc.Signers)]
+		f.optUsed++
+	}
+	nonce := nn.get(signer, base)
+	nn.m[signer.Addr] = nonce + 1
+	fee := &transaction.Fee{Gas: 3000}
+	_ = fee.Amount.FromUint64(3000 * sc.P.MinGasPrice)
+	return &Input{Data: f.envelope(signer, encodeTx(nonce, fee, o.method, o.body)), Aux: "layer=optfield;method=" + o.method + ";variant=" + o.label, Op: "opt-field"}
+}
+
 // feeGrid builds valid signed transfers whose fee is a boundary combination: gas in
 // {0, 1, sufficient, 2^64-1} x amount in {0, 1, balance, balance+1}, plus no fee at all. The
 // signers are the user accounts (the grid spends whole balances), in rotation.
@@ -487,6 +561,20 @@ func (f *txFuzzer) extra(g *chainsim.TxGen, height int64, base []*chainsim.GenTx
 			f.curMap[string(fi.in.Data)] = fi
 		}
 		out = append(out, &chainsim.GenTx{Raw: fi.in.Data, Method: "fuzz", Intent: "fuzz"})
+	}
+	// Deterministic optional-field variants of roothash.Evidence / ExecutorCommit bodies (first in
+	// the block, each from a signer that has no transaction in this block where possible, so
+	// that the same bytes pass authentication at CheckTx and at DeliverTx).
+	for _, o := range f.optSlice() {
+		idx := f.nextIdx
+		f.nextIdx++
+		fi := &fuzzIn{idx: idx, in: f.optInput(o, base, nn), height: height}
+		f.checkTx(fi)
+		f.st.Extra["optional_field_tx_inputs"]++
+		if isSystemTx(fi.in.Data) {
+			continue
+		}
+		admit(fi)
 	}
 	// Deterministic fee/gas boundary grid on otherwise valid signed transfers, every fourth
 	// fuzzed block (before the random mutants, so that the predicted nonces hold).
@@ -674,6 +762,7 @@ func txChildMain(caseJSON, scratch string) {
 	f.h = h
 	f.chain = chainsim.TxContext(h.Sc.Doc.ChainContext())
 	f.synthSeeds()
+	f.buildOptGrid()
 	h.Gen.Extra = f.extra
 
 	// Watchdog (per input and per block step).
